@@ -30,17 +30,20 @@ const (
 )
 
 type probe struct {
-	src     source
-	op      string      // binder method: query form header cookie json xml cbor body uri
-	auto    bool        // WithAutoHandling / WithoutAutoHandling (set explicitly unless defMode)
-	defMode bool        // the handler does not choose a mode: the documented default is manual handling
-	respHdr [][2]string // op "respheader": response headers the handler sets before Bind().RespHeader
-	swallow bool        // totality: the handler ignores the bind error and answers normally
-	typ     *typeSpec
-	want    reflect.Value // struct value to compare with; invalid = no comparison
-	outKind int
-	send    *sendSpec // how the client is given the value (nil = the struct setters)
-	pre     string    // what the handler does before the judged bind: "" | body-first | multipartform-first
+	src       source
+	op        string      // binder method: query form header cookie json xml cbor body uri
+	auto      bool        // WithAutoHandling / WithoutAutoHandling (set explicitly unless defMode)
+	defMode   bool        // the handler does not choose a mode: the documented default is manual handling
+	respHdr   [][2]string // op "respheader": response headers the handler sets before Bind().RespHeader
+	swallow   bool        // totality: the handler ignores the bind error and answers normally
+	typ       *typeSpec
+	want      reflect.Value // struct value to compare with; invalid = no comparison
+	outKind   int
+	send      *sendSpec    // how the client is given the value (nil = the struct setters)
+	multi     []*multiBind // several binds in this request (multibind.go); the fields above except the mode are unused then
+	freshEach bool         // multi: every bind goes through c.Bind() again
+	viaMW     bool         // multi: a middleware switched automatic handling on
+	pre       string       // what the handler does before the judged bind: "" | body-first | multipartform-first
 
 	// results
 	ran      bool
